@@ -53,6 +53,7 @@ type transparentUplink struct {
 	natConnSendCh  <-chan *transparentQueuedPacket
 	natConnPacker  zerocopy.ClientPacker
 	natTimeout     time.Duration
+	state          *atomic.Pointer[net.UDPConn]
 	relayBatchSize int
 	logger         *zap.Logger
 }
@@ -354,6 +355,7 @@ func (s *UDPTransparentRelay) recvFromServerConnRecvmmsg(ctx context.Context, ln
 							natConnSendCh:  natConnSendCh,
 							natConnPacker:  clientSession.Packer,
 							natTimeout:     lnc.natTimeout,
+							state:          &entry.state,
 							relayBatchSize: lnc.relayBatchSize,
 							logger:         lnc.logger,
 						})
@@ -507,7 +509,7 @@ main:
 			burstBatchSize = max(burstBatchSize, n)
 		}
 
-		if err := uplink.natConn.SetReadDeadline(time.Now().Add(uplink.natTimeout)); err != nil {
+		if err := extendNATConnReadDeadline(uplink.natConn.UDPConn, uplink.state, uplink.natTimeout); err != nil {
 			uplink.logger.Error("Failed to set read deadline on natConn",
 				zap.Stringer("clientAddress", uplink.clientAddrPort),
 				zap.String("client", uplink.clientName),
